@@ -79,14 +79,24 @@ Call(k) == \E c \in CallsOf(k) :
                   /\ hs' = [hs EXCEPT ![k] = GStep(hs[k], c)]
                   /\ last' = [kind |-> "call", obj |-> k, c |-> c]
 
-\* object b becomes a copy of object a ("construct": copy constructor, "assign": operator=)
-Copy(a, b) == \E how \in {"construct", "assign"} :
+\* object b receives the value of object a: "construct" copy constructor, "assign" operator=,
+\* "moveconstruct" / "moveassign" from std::move(a) - after which a, left in a valid but unspecified
+\* state, is assigned the value back, so that both hold it
+Copy(a, b) == \E how \in {"construct", "assign", "moveconstruct", "moveassign"} :
                 /\ gs' = [gs EXCEPT ![b] = gs[a]]
                 /\ hs' = [hs EXCEPT ![b] = hs[a]]
                 /\ last' = [kind |-> "copy", src |-> a, dst |-> b, how |-> how]
+\* std::swap(a, b)
+Swap == /\ gs' = <<gs[2], gs[1]>>
+        /\ hs' = <<hs[2], hs[1]>>
+        /\ last' = [kind |-> "swap"]
+\* a = a
+SelfAssign(k) == /\ UNCHANGED <<gs, hs>>
+                 /\ last' = [kind |-> "selfassign", obj |-> k]
 
 Next == \/ Call(1) \/ Call(2)
         \/ Copy(1, 2) \/ Copy(2, 1)
+        \/ Swap \/ SelfAssign(1) \/ SelfAssign(2)
 
 View == <<gs, hs>>
 
@@ -110,5 +120,7 @@ EqReflexive == CodeEq(gs[1], gs[1]) /\ CodeEq(gs[2], gs[2])
 CopyStep ==
     /\ last'.kind = "copy" => (CodeEq(gs'[1], gs'[2]) /\ AdtEq(hs'[1], hs'[2]))
     /\ last'.kind = "call" => (gs'[3 - last'.obj] = gs[3 - last'.obj])
+    /\ last'.kind = "swap" => (CodeEq(gs'[1], gs[2]) /\ CodeEq(gs'[2], gs[1]))
+    /\ last'.kind = "selfassign" => (CodeEq(gs'[1], gs[1]) /\ CodeEq(gs'[2], gs[2]))
 CopyIndependent == [][CopyStep]_pvars
 =============================================================================
